@@ -20,6 +20,9 @@
 // through MutableTransaction keeps the hash, changing any unsigned field changes it, a byte
 // flip inside the unsigned prefix that is still accepted changes the hash and one behind it
 // does not, truncations are never accepted, appended bytes are not consumed.
+//
+// history.go adds histories of steps on live transaction objects (the hash a MutableTransaction
+// or Transaction reports after sequences of edits, signing steps and conversions).
 package main
 
 import (
@@ -33,6 +36,7 @@ import (
 	"reflect"
 	"runtime"
 	"sync"
+	"time"
 
 	ethtypes "github.com/ethereum/go-ethereum/core/types"
 	ethcrypto "github.com/ethereum/go-ethereum/crypto"
@@ -1223,7 +1227,7 @@ func sizeCases(rng *vf.RNG) {
 
 func main() {
 	r = vf.NewRun("C19", "exploration",
-		"valid transactions of 8 shapes (native transfer, NeoVM invoke, Wasm-type invoke, deploy with vm flags 0/1/3, EIP-155 call/create) signed by single or m-of-n signers over all key types with 0-3 extra signature sets; per transaction: every single-byte flip (<=2048 positions), set-byte, every truncation, appended bytes, non-minimal varuint at every length field, attribute count != 0, non-canonical RLP forms, semantic EIP variants, signature-set and unsigned-field variants through MutableTransaction; plus random/structured/spliced strings and size-limit cases; distinct by family+bytes")
+		"valid transactions of 8 shapes (native transfer, NeoVM invoke, Wasm-type invoke, deploy with vm flags 0/1/3, EIP-155 call/create) signed by single or m-of-n signers over all key types with 0-3 extra signature sets; per transaction: every single-byte flip (<=2048 positions), set-byte, every truncation, appended bytes, non-minimal varuint at every length field, attribute count != 0, non-canonical RLP forms, semantic EIP variants, signature-set and unsigned-field variants through MutableTransaction; plus random/structured/spliced strings and size-limit cases; distinct by family+bytes; plus histories of 12-48 seeded random steps on live objects (one MutableTransaction, its struct copies sharing the payload pointer, its IntoImmutable results, their decodings and IntoMutable results, one re-used Transaction): hash reports through Hash()/IntoImmutable(), signing and signature-set edits, scalar field edits, payload edits in place through the same pointer, payload object replacement, temporarily unserializable states; every report compared with the monitor's own double sha256 of its own serialization of the modelled content and with a fresh object; distinct by step log")
 	types.CheckChainID = true
 	config.DefConfig.P2PNode.EVMChainId = chainID
 	rng := vf.NewRNG(vf.Seed())
@@ -1237,6 +1241,11 @@ func main() {
 
 	nsig := vf.N(20, 200)
 	vf.Parallel(nsig, workers, func(i int) { sigCountCase(rng.Sub(1<<40 + uint64(i))) })
+
+	// histories of steps on live transaction objects (history.go)
+	t0 := time.Now()
+	runHistories(rng.Sub(6<<40), workers)
+	println("HISTSEC", time.Since(t0).String())
 
 	// random / structured strings
 	var pool [][]byte
@@ -1348,6 +1357,8 @@ func main() {
 	r.Require("chainid_off_accepted", 30)
 	r.Require("eip_accepted_unprotected", 10)
 	r.Require("eip_accepted_foreign_chain", 10)
+	requireHistories()
+	r.Assume("histories: an object whose version is not 0 is not a transaction; it may report the empty hash or the hash of its current fields, but never the hash of another content; a Transaction whose IntoMutable was called has handed its internals over and is not observed afterwards; signature-set counts stay within TX_MAX_SIG_SIZE")
 	r.Assume("EIP-155 transactions: 'signatures do not change the hash' is asserted for the Ontology format only (the Ethereum transaction hash covers v,r,s by definition); for EIP-155 the monitor asserts canonical re-encoding, hash = keccak(rlp), payer = recovered sender, mirrored fields")
 	r.Assume("hashUnsigned of an EIP-155 transaction has no accessor: observed through SigHashForChain(chain id)")
 	r.Assume("whether the size check happens before any allocation is not observable without a hook; only accept/reject above the limit is checked")
